@@ -473,6 +473,7 @@ func mapWorld(h *H, nscripts, nsteps int) {
 	r := h.rng
 	keys := []string{"", "a", "b", "ab", "zz", "\x00", "k1", "k2"}
 	for n := 0; n < nscripts; n++ {
+		h.wd.Beat(fmt.Sprint("map[string]int script ", n))
 		sc := &script{h: h, world: "map[string]int"}
 		M := fmt.Sprintf("m%d_m", h.nscript)
 		h.nscript++
@@ -543,6 +544,7 @@ func mapWorld(h *H, nscripts, nsteps int) {
 func chanWorld(h *H, nscripts, nsteps int) {
 	r := h.rng
 	for n := 0; n < nscripts; n++ {
+		h.wd.Beat(fmt.Sprint("chan int script ", n))
 		sc := &script{h: h, world: "chan int"}
 		C := fmt.Sprintf("c%d_c", h.nscript)
 		h.nscript++
@@ -707,5 +709,6 @@ func containerScripts(h *H) {
 	sliceWorld(h, gb, true, ns/2, steps)
 	mapWorld(h, ns, steps)
 	chanWorld(h, ns, steps)
+	h.wd.Beat("writing container cases")
 	h.writeContCases()
 }
